@@ -59,7 +59,7 @@ PROPS = {
         "text": "part 1: sanitiser output is always a safe relative path (proved); every constructor and the FHED parser compared with the model",
     },
     "C15": {
-        "lean": ["PnaVerif.Props.Consts", "PnaVerif.Props.C15"],
+        "lean": ["PnaVerif.Props.Consts", "PnaVerif.Props.C15", "PnaVerif.Props.C15Cli"],
         "families": ["codec", "entry", "cli-codec"],
         "trusted": COMMON_TRUST,
         "text": "library codecs: dec(enc v) = v under explicit domain predicates (proved); codecs compared through hooks",
@@ -92,7 +92,7 @@ PROPS = {
     },
     "C10": {
         "lean": ["PnaVerif.Props.Consts", "PnaVerif.Props.C10"],
-        "families": ["edit"],
+        "families": ["edit", "fault"],
         "cli": True,
         "trusted": COMMON_TRUST + ["globset (selection) and the system user database (chown) enter as oracle answers", "clap argument parsing"],
         "text": "per-command spec (frame+target+order) and idempotence proved over the transform model for both solid strategies; real pna editing runs compared with the model and with a frame/target/idempotence oracle",
@@ -106,7 +106,7 @@ PROPS = {
     },
     "C11": {
         "lean": ["PnaVerif.Props.Consts", "PnaVerif.Props.C11"],
-        "families": ["history"],
+        "families": ["history", "fault"],
         "cli": True,
         "trusted": COMMON_TRUST + ["ignore's walker (which paths exist, in which order) enters as an oracle answer via the collect_items hook", "file mtimes compared as the kernel reports them"],
         "text": "append/update/delete specifications and the history invariant proved over ordered entry lists; real pna histories on an evolving tree compared with the model after every step",
@@ -125,6 +125,20 @@ PROPS = {
         "cli": True,
         "trusted": COMMON_TRUST + ["the tree-level model (Model/Cli/Create.lean) is a hand-written specification of create+extract; its tie to the code is the cli-tree correspondence on the real binary", "kernel file-system behaviour (permission bits, utimensat, symlink creation) is observed, not modelled"],
         "text": "expected tree after create+extract characterised for every tree and keep-option subset; real pna create/extract over the option product compared with it",
+    },
+    "C12": {
+        "lean": ["PnaVerif.Props.Consts", "PnaVerif.Props.C12"],
+        "families": ["fault"],
+        "cli": True,
+        "trusted": COMMON_TRUST + ["the command shapes (collect-then-append; temp file + finalize + rename) are hand-transcribed from append.rs / commons.rs / update.rs", "rename(2) atomicity and same-device temp directory are assumed; a cross-device move (copy + remove) interrupted by an I/O error is outside the fault model of the property"],
+        "text": "failure at any position leaves the archive file as it was (append: nothing written before all inputs are built; rewrites: only the temp file is written); legacy append shown to violate; real commands with injected faults at every position",
+    },
+    "C19": {
+        "lean": ["PnaVerif.Props.Consts", "PnaVerif.Props.C19"],
+        "families": ["sched"],
+        "cli": True,
+        "trusted": COMMON_TRUST + ["the shape extractor (harness/src/shapes.rs, a syn walk over cli/src/command/*.rs) is the translator: it is trusted to classify scope/spawn/loop nesting; closures passed to other functions are treated as per-item callbacks", "rayon: a scope returns only after its tasks finished; an indexed parallel collect keeps index order; std mpsc delivers in send order", "the walker (ignore crate) is single-threaded and its order is a function of the directory contents"],
+        "text": "order of results = order of submission under every schedule for the pipeline shape extracted from the sources on every run; witness schedules for the parallel shapes; real binary under pool sizes 1..32 and CPU contention",
     },
     "C20": {
         "lean": ["PnaVerif.Props.Consts", "PnaVerif.Props.C20"],
